@@ -8,7 +8,7 @@ R11g end of stream reports the trailing space."""
 import ast
 from ..core import (AnalysisError, short, unparse, iter_own, call_name, call_recv, kwarg,
                     is_self_attr, atomic_facts, parents, enclosing_stmt, enclosing_func)
-from .. import affine
+from .. import affine, symex
 from . import c14
 
 TR = 'pylatexenc.latexnodes._tokenreader'
@@ -159,23 +159,337 @@ def run(ctx):
     mt, mp = meths.get('move_to_token'), meths.get('move_past_token')
     if mt is None or mp is None:
         raise AnalysisError('anchor vanished: move_to_token/move_past_token')
-    t = unparse(mt)
-    ok = 'new_pos = tok.pos - len(tok.pre_space)' in t and 'new_pos = tok.pos\n' in t + '\n' and \
-        'self._advance_to_pos(new_pos)' in t
-    ctx.decide('R11d', ok, m, mt, 'rewind to tok.pos - len(tok.pre_space) / tok.pos',
-               'move_to_token does not target tok.pos - len(tok.pre_space) (with rewind) or tok.pos '
-               '(without): reading again after going back yields a different token',
-               construct='move_to_token')
-    t = unparse(mp)
-    ok = 'new_pos = tok.pos_end' in t and 'new_pos -= len(post_space)' in t and \
-        'self._advance_to_pos(new_pos)' in t
-    ctx.decide('R11d', ok, m, mp, 'advance to tok.pos_end (minus post space when requested)',
-               'move_past_token does not target tok.pos_end', construct='move_past_token')
+    _move_targets(ctx, m, mt, 'move_to_token', 1,
+                  {True: 'tok.pos - len(tok.pre_space)', False: 'tok.pos'},
+                  'reading again after going back yields a different token')
+    _move_targets(ctx, m, mp, 'move_past_token', 1,
+                  {True: 'tok.pos_end', False: 'tok.pos_end - len(tok.post_space)'},
+                  'the next read does not start where this token ended')
 
     # ------------------------------------------------------------ R11e
     prespace_forwarding(ctx, 'R11e', m, meths)
     ip = meths.get('impl_peek_token')
     return _rest_r11e(ctx, repo, m, meths, ip)
+
+
+def _move_targets(ctx, m, f, fname, flag_index, expected, consequence):
+    """the value handed to self._advance_to_pos on each branch of the boolean flag parameter,
+    compared as affine normal forms (if/else assignment, conditional expression, `-=` adjustment
+    and introduced locals all give the same cases)"""
+    args = [a.arg for a in f.args.args]
+    if len(args) < 3:
+        raise AnalysisError('anchor changed: %s signature' % fname)
+    tokname, flag = args[1], args[2]
+    try:
+        cases = symex.sink_cases(f, lambda c: call_name(c) == '_advance_to_pos' and is_self_call(c))
+    except symex.TooManyPaths as e:
+        ctx.unknown('R11d', m, f, str(e), construct=fname)
+        return
+    if not cases:
+        ctx.refuted('R11d', m, f, '%s never moves the reader (no self._advance_to_pos call): %s'
+                    % (fname, consequence), construct=fname)
+        return
+    bad = []
+    seen = set()
+    for cs in cases:
+        pol = cs.polarity_of(lambda a: isinstance(a, ast.Name) and a.id == flag)
+        if not cs.sub.args:
+            bad.append('no target')
+            continue
+        got = _GetattrToAttr().visit(cs.sub.args[0])
+        # a branch decision "x is falsy" makes len(x) == 0 on that path
+        zero = set()
+        for t, p_ in cs.conds:
+            for a, ap in symex._atoms(t, p_):
+                if not ap:
+                    zero.add('len(%s)' % unparse(_GetattrToAttr().visit(a)))
+        pols = [pol] if pol is not None else [True, False]
+        for pl in pols:
+            seen.add(pl)
+            want = ast.parse(expected[pl].replace('tok', tokname), mode='eval').body
+            # post_space may be read into a local through the token: tok.post_space
+            try:
+                d = affine.diff(got, want, {})
+            except affine.NotAffine as e:
+                bad.append('%s=%s: target %s not comparable (%s)' % (flag, pl, short(got, 60), e))
+                continue
+            d = (d[0], dict((k, v) for k, v in d[1].items() if k not in zero))
+            if d != (0, {}):
+                bad.append('%s=%s: target is %s, expected %s' % (flag, pl, short(got, 60), expected[pl]))
+    if seen != {True, False}:
+        bad.append('only the %s=%s case reaches _advance_to_pos' % (flag, sorted(seen)))
+    if bad:
+        ctx.refuted('R11d', m, f, '%s: %s: %s' % (fname, '; '.join(bad), consequence), construct=fname)
+    else:
+        ctx.holds('R11d', m, f, '%s targets %s (flag set) / %s (flag clear) on %d structural case(s)'
+                  % (fname, expected[True], expected[False], len(cases)), construct=fname)
+
+
+def _call_args_by_name(c, meths):
+    """argument expressions of a make_token/LatexToken call or of a call of a reader method on
+    self, keyed by parameter name"""
+    out = dict((k.arg, k.value) for k in c.keywords if k.arg)
+    callee = meths.get(call_name(c))
+    if callee is not None and is_self_call(c):
+        names = [a.arg for a in callee.args.args][1:]
+        for n, a in zip(names, c.args):
+            out.setdefault(n, a)
+    elif call_name(c) == 'LatexToken':
+        for n, a in zip(('tok', 'arg', 'pos', 'pos_end', 'pre_space', 'post_space'), c.args):
+            out.setdefault(n, a)
+    return out
+
+
+def _reader_symbols(env, readers):
+    """symbols bound on this path by tuple-unpacking the result of a space reader:
+    {S symbol: (P expr, E symbol-name)}"""
+    defs = env.get('#def', {})
+    by_call = {}
+    for sym, d in defs.items():
+        if isinstance(d, tuple) and d[0] == 'item' and isinstance(d[3], ast.Call) and \
+                call_name(d[3]) in readers and readers[call_name(d[3])]['n'] == d[2]:
+            by_call.setdefault(id(d[3]), (d[3], {}))[1][d[1]] = sym
+    out = {}
+    for call, items in by_call.values():
+        r = readers[call_name(call)]
+        if r['S'] not in items or r['E'] not in items:
+            continue
+        # the start position is the reader's position argument (the scanner returns it
+        # unchanged, see _lockstep_scanner); a returned start symbol is an alias of it
+        args = list(call.args)
+        if r['posparam'] >= len(args):
+            kw = [k.value for k in call.keywords if k.arg == r['posname']]
+            P = kw[0] if kw else None
+        else:
+            P = args[r['posparam']]
+        psym = items.get(r['P']) if r.get('P') is not None else None
+        if P is None:
+            if psym is None:
+                continue
+            P, psym = ast.Name(id=psym, ctx=ast.Load()), None
+        out[items[r['S']]] = (P, items[r['E']], psym)
+    return out
+
+
+def _coherent(space_sub, x_sub, rs):
+    """None if x_sub - P == len(space_sub) for the reader triple the space derives from; a
+    reason string if they differ; '' if the space does not derive from a reader"""
+    base = [n.id for n in ast.walk(space_sub) if isinstance(n, ast.Name) and n.id in rs]
+    if not base:
+        return ''
+    S = base[0]
+    P, E, psym = rs[S]
+    if psym:
+        x_sub = symex.subst(x_sub, {psym: P})
+    try:
+        lhs = affine.diff(x_sub, P, {})
+        c, t = affine.norm_len(space_sub, {})
+        # len(S) == E - P for the untouched reader result
+        k = 'len(%s)' % S
+        if k in t:
+            coef = t.pop(k)
+            ce, te = affine.diff(ast.Name(id=E, ctx=ast.Load()), P, {})
+            c += coef * ce
+            for kk, vv in te.items():
+                t[kk] = t.get(kk, 0) + coef * vv
+        t = dict((kk, vv) for kk, vv in t.items() if vv)
+    except affine.NotAffine as e:
+        return 'not comparable: %s' % e
+    if lhs == (c, t):
+        return None
+    return 'position - %s is %s but the space has length %s' % (unparse(P), affine.show(lhs), affine.show((c, t)))
+
+
+def _space_coherence(ctx, m, meths):
+    """every token (and every call handing pos/pre_space on to a reader method) keeps the
+    invariant  pos - start_of_space == len(pre_space)  and  pos_end - start_of_post_space ==
+    len(post_space); decided per structural path with substituted values, so it does not depend
+    on which locals hold the intermediate positions or whether a cut is done in a helper"""
+    isp = meths.get('impl_peek_space_chars')
+    if isp is None:
+        raise AnalysisError('anchor vanished: impl_peek_space_chars')
+    why = _lockstep_scanner(isp)
+    ctx.decide('R11e', why is None, m, isp,
+               'scanner appends s[i] and advances i by one on every continuing path of its loop, '
+               'leaves both unchanged when it stops, and returns (space, pos, i)',
+               'impl_peek_space_chars: %s: the returned end position is not start + len(space), '
+               'tokens built from it start at the wrong place' % why,
+               construct='impl_peek_space_chars')
+    if why is not None:
+        return
+    ret = [r for r in iter_own(isp) if isinstance(r, ast.Return)][0].value
+    pnames = [a.arg for a in isp.args.args][1:]
+    readers = {'impl_peek_space_chars': dict(n=3, S=0, P=1, E=2, posparam=pnames.index(ret.elts[1].id),
+                                             posname=ret.elts[1].id)}
+    # derived readers: helpers returning (space, end) computed from a reader result
+    for _round in range(2):
+        for fname, f in sorted(meths.items()):
+            if fname in readers or fname == 'peek_space_chars':
+                continue
+            try:
+                rcs = symex.return_cases(f)
+            except symex.TooManyPaths:
+                continue
+            if not rcs or not all(isinstance(c.sub, ast.Tuple) and len(c.sub.elts) == 2 for c in rcs):
+                continue
+            fparams = [a.arg for a in f.args.args][1:]
+            ok, posp = True, None
+            for c in rcs:
+                rs = _reader_symbols(c.env, readers)
+                r = _coherent(c.sub.elts[0], c.sub.elts[1], rs)
+                if r == '':
+                    ok = False
+                    break
+                base = [n.id for n in ast.walk(c.sub.elts[0]) if isinstance(n, ast.Name) and n.id in rs][0]
+                P = rs[base][0]
+                if not (isinstance(P, ast.Name) and P.id in fparams):
+                    ok = False
+                    break
+                posp = P.id
+                cons = '%s: returned (space, end) pair' % fname
+                if r is None:
+                    ctx.holds('R11e', m, c.node, 'returned end - %s == len(returned space)' % posp, construct=cons)
+                else:
+                    ctx.refuted('R11e', m, c.node, '%s returns a space string and an end position '
+                                'that disagree (%s): text and positions of the token built from '
+                                'them disagree' % (fname, r), construct=cons)
+            if ok and posp:
+                readers[fname] = dict(n=2, S=0, P=None, E=1, posparam=fparams.index(posp), posname=posp)
+
+    def sink(c):
+        if call_name(c) in ('make_token', 'LatexToken'):
+            return True
+        return is_self_call(c) and call_name(c) in meths and call_name(c).startswith('impl_') and \
+            'pre_space' in [a.arg for a in meths[call_name(c)].args.args]
+    n_pre = n_post = 0
+    for fname, f in sorted(meths.items()):
+        fparams = [a.arg for a in f.args.args]
+        try:
+            cases = symex.sink_cases(f, sink)
+        except symex.TooManyPaths as e:
+            ctx.unknown('R11e', m, f, str(e), construct='%s: space coherence' % fname)
+            continue
+        seen = {}
+        for cs in cases:
+            args = _call_args_by_name(cs.sub, meths)
+            rs = _reader_symbols(cs.env, readers)
+            for which, posk in (('pre_space', 'pos'), ('post_space', 'pos_end')):
+                sp, x = args.get(which), args.get(posk)
+                if sp is None or x is None:
+                    continue
+                cons = '%s: %s of %s(%s)' % (fname, which, call_name(cs.node),
+                                             short(args.get('tok'), 25) if args.get('tok') is not None else '')
+                if which == 'pre_space' and isinstance(sp, ast.Name) and sp.id == 'pre_space' and \
+                        'pre_space' in fparams and 'pos' in fparams:
+                    # contract of the impl_read_* methods: (pos, pre_space) are handed on together
+                    verdict = None if (isinstance(x, ast.Name) and x.id == 'pos') else \
+                        'the token starts at %s, not at the pos the pre_space belongs to' % short(x)
+                else:
+                    verdict = _coherent(sp, x, rs)
+                    if verdict == '':
+                        if isinstance(sp, ast.Constant) and sp.value == '':
+                            continue
+                        verdict = '?'
+                seen.setdefault(cons, []).append((verdict, cs))
+        for cons, lst in sorted(seen.items()):
+            bad = [(v, cs) for v, cs in lst if v not in (None, '?')]
+            unk = [(v, cs) for v, cs in lst if v == '?']
+            node = lst[0][1].node
+            if 'pre_space' in cons.split(':')[1]:
+                n_pre += 1
+            else:
+                n_post += 1
+            if bad:
+                ctx.refuted('R11e', m, node, 'the token\'s space and position disagree on a path '
+                            '[%s]: %s: characters are lost or duplicated when the token stream is '
+                            'put back together, and going back to the token re-reads from the wrong '
+                            'place' % (' & '.join(bad[0][1].cond_src())[:160], bad[0][0]), construct=cons)
+            elif unk:
+                ctx.unknown('R11e', m, node, 'space argument does not derive from a recognised '
+                                             'space reader result', construct=cons)
+            else:
+                ctx.holds('R11e', m, node, 'position - start of space == len(space) on %d structural '
+                                           'path(s)' % len(lst), construct=cons)
+    if n_pre < 8 or n_post < 2:
+        raise AnalysisError('space coherence: only %d pre_space / %d post_space sites found' % (n_pre, n_post))
+
+
+def _lockstep_scanner(f):
+    """None when the whitespace scanner keeps (accumulated string, index) in lock step, else the
+    reason.  Shape-independent: the return tuple names the variables, the loop body is walked
+    path by path with substitution (pxv.symex)."""
+    rets = [r for r in iter_own(f) if isinstance(r, ast.Return)]
+    if len(rets) != 1 or not isinstance(rets[0].value, ast.Tuple) or len(rets[0].value.elts) != 3 \
+            or not all(isinstance(e, ast.Name) for e in rets[0].value.elts):
+        return 'does not return one (space, start, end) tuple of variables'
+    acc, start, idx = [e.id for e in rets[0].value.elts]
+    params = [a.arg for a in f.args.args]
+    if start not in params:
+        return 'the returned start position %s is not the position parameter' % start
+    loops = [l for l in f.body if isinstance(l, ast.While)]
+    if len(loops) != 1:
+        return 'expected one scanning loop at function level, found %d' % len(loops)
+    loop = loops[0]
+    # initial values before the loop
+    pre = symex.Walker(want_exits=True).run_block(f.body[:f.body.index(loop)])
+    ends = [c for c in pre if c.kind == 'end']
+    if len(ends) != 1:
+        return 'initialisation before the loop is not straight-line'
+    env0 = ends[0].env
+    i0, a0 = env0.get(idx), env0.get(acc)
+    if i0 is None or unparse(i0) != start:
+        return 'the index %s does not start at %s' % (idx, start)
+    if a0 is None or not (isinstance(a0, ast.Constant) and a0.value == ''):
+        return 'the accumulated space does not start empty'
+    # the string scanned: s[idx]
+    strname = None
+    body_env = dict((k, v) for k, v in env0.items() if k not in (idx, acc) and v is not None and not k.startswith('#')
+                    and not any(isinstance(n, ast.Name) and n.id in (idx, acc) for n in ast.walk(v)))
+    cases = symex.Walker(want_exits=True).run_block(
+        loop.body, env=body_env, conds=[(symex.subst(loop.test, body_env), True)])
+    n_step = 0
+    for cs in cases:
+        ai, ii = cs.env.get(acc), cs.env.get(idx)
+        unchanged_a = acc not in cs.env or (ai is not None and unparse(ai) == acc)
+        unchanged_i = idx not in cs.env or (ii is not None and unparse(ii) == idx)
+        if cs.kind in ('break', 'return', 'raise'):
+            if cs.kind == 'break' and not (unchanged_a and unchanged_i):
+                return 'a path that stops scanning changes %s or %s' % (acc, idx)
+            continue
+        # continuing path
+        if unchanged_a and unchanged_i:
+            return 'a continuing loop path changes neither the index nor the space (no progress)'
+        if ii is None or unparse(ii).replace(' ', '') != '%s+1' % idx:
+            return 'a continuing path sets %s to %s, not %s + 1' % (idx, short(ii) if ii is not None else '?', idx)
+        if not (isinstance(ai, ast.BinOp) and isinstance(ai.op, ast.Add) and unparse(ai.left) == acc
+                and isinstance(ai.right, ast.Subscript) and unparse(ai.right.slice) == idx):
+            return 'a continuing path sets %s to %s, not %s + <string>[%s]' % (
+                acc, short(ai) if ai is not None else '?', acc, idx)
+        ch = unparse(ai.right)
+        facts = set()
+        for t, pol in cs.conds:
+            for a, ap in symex._atoms(t, pol):
+                facts.add((unparse(a), ap))
+        if ('%s.isspace()' % ch, True) not in facts:
+            return 'the appended character %s is not tested with isspace() on that path' % ch
+        n_step += 1
+    if not n_step:
+        return 'no path of the loop appends a character'
+    return None
+
+
+class _GetattrToAttr(ast.NodeTransformer):
+    """getattr(x, 'name', None) -> x.name (the defaulted read of an optional token field)"""
+    def visit_Call(self, n):
+        self.generic_visit(n)
+        if isinstance(n.func, ast.Name) and n.func.id == 'getattr' and len(n.args) >= 2 and \
+                isinstance(n.args[1], ast.Constant) and isinstance(n.args[1].value, str):
+            return ast.Attribute(value=n.args[0], attr=n.args[1].value, ctx=ast.Load())
+        return n
+
+
+def is_self_call(c):
+    return isinstance(c.func, ast.Attribute) and isinstance(c.func.value, ast.Name) and c.func.value.id == 'self'
 
 
 def prespace_forwarding(ctx, rule, m, meths):
@@ -200,58 +514,8 @@ def prespace_forwarding(ctx, rule, m, meths):
 def _rest_r11e(ctx, repo, m, meths, ip):
     if ip is None:
         raise AnalysisError('anchor vanished: impl_peek_token')
-    # paired truncations: X = X[:k]  <->  Y = base + k   (same k)
-    for fname, pairs in (('impl_peek_token', [('pre_space', 'newpar_pos_start', 'space_pos')]),
-                         ('impl_read_macro', [('post_space', 'post_space_pos_end', 'post_space_pos')]),
-                         ('impl_read_comment', [('post_space', 'post_space_pos_end', 'post_space_pos')])):
-        f = meths.get(fname)
-        if f is None:
-            raise AnalysisError('anchor vanished: ' + fname)
-        for sv, pv, base in pairs:
-            cuts = [s for s in iter_own(f) if isinstance(s, ast.Assign) and unparse(s.targets[0]) == sv
-                    and isinstance(s.value, ast.Subscript) and isinstance(s.value.slice, ast.Slice)
-                    and unparse(s.value.value) == sv]
-            if not cuts:
-                ctx.unknown('R11e', m, f, 'no truncation of %s found' % sv,
-                            construct='%s: truncation of %s' % (fname, sv))
-                continue
-            for cut in cuts:
-                k = cut.value.slice.upper
-                lo = cut.value.slice.lower
-                posdefs = [s for s in _block_of(cut) if isinstance(s, ast.Assign)
-                           and unparse(s.targets[0]) == pv]
-                ok = lo is None and k is not None and any(
-                    unparse(s.value).replace(' ', '') == ('%s+%s' % (base, unparse(k))).replace(' ', '')
-                    for s in posdefs)
-                ctx.decide('R11e', ok, m, cut,
-                           '%s cut at %s and %s = %s + %s' % (sv, unparse(k) if k else '?', pv, base,
-                                                             unparse(k) if k else '?'),
-                           '%s is cut by %s but %s is not recomputed as %s + the same index (%s): '
-                           'text and positions of the token disagree' % (
-                               sv, short(cut.value), pv, base, [short(s) for s in posdefs]),
-                           construct='%s: paired truncation of %s' % (fname, sv))
-    # token position = end of the peeked space
-    a = [s for s in iter_own(ip) if isinstance(s, ast.Assign) and unparse(s.targets[0]) == 'pos'
-         and unparse(s.value) == 'space_pos_end']
-    sp = [s for s in iter_own(ip) if isinstance(s, ast.Assign) and isinstance(s.targets[0], ast.Tuple)
-          and call_name(s.value) == 'impl_peek_space_chars']
-    ok = bool(a) and bool(sp) and [unparse(e) for e in sp[0].targets[0].elts] == \
-        ['pre_space', 'space_pos', 'space_pos_end'] and unparse(sp[0].value.args[1]) in ('pos', 'self._pos')
-    ctx.decide('R11e', ok, m, a[0] if a else ip, 'tokens start at space_pos_end, space peeked from the '
-                                                 'current position',
-               'impl_peek_token does not start the token where the peeked whitespace ends',
-               construct='impl_peek_token: token start')
     # the space scanner returns (space, pos, p2) with p2 - pos == len(space)
-    isp = meths.get('impl_peek_space_chars')
-    if isp is not None:
-        t = unparse(isp)
-        ok = 'space += c' in t and 'p2 += 1' in t and 'return (space, pos, p2)' in t and \
-            'if not c.isspace():' in t
-        ctx.decide('R11e', ok, m, isp, 'scanner appends one character per step and returns '
-                                       '(space, pos, p2)',
-                   'impl_peek_space_chars no longer advances one position per whitespace character '
-                   'appended', construct='impl_peek_space_chars')
-
+    _space_coherence(ctx, m, meths)
     # ------------------------------------------------------------ R11f
     cm = repo.mod(c14.MODULE)
     tfs = cm.methods(c14.CLASS).get('test_for_specials')
